@@ -147,14 +147,16 @@ func implClassify(codec string, payload []byte) string {
 		return "out=unbuildable"
 	}
 	key, pan := false, ""
-	func() {
+	if !d.Guard(func() {
 		defer func() {
 			if r := recover(); r != nil {
 				pan = fmt.Sprint(r)
 			}
 		}()
 		key = pc.CachePack(p)
-	}()
+	}) {
+		return "out=hang"
+	}
 	if pan != "" {
 		return "out=panic"
 	}
@@ -195,11 +197,17 @@ func flushClassify(c *Ctx) {
 	}
 	outs := c.Drive(lines)
 	for i, q := range classQ {
+		if d.Stopped {
+			break
+		}
 		got := implClassify(q.codec, q.payload)
 		c.Eval(lines[i], len(q.payload) >= 3)
 		c.Count("classify-" + q.codec + "-" + got[4:])
 		if got != outs[i] {
 			c.Find(Finding{Kind: "corr", Class: "classify", Case: lines[i], Impl: got, Model: outs[i]})
+		}
+		if got == "out=hang" {
+			c.Find(Finding{Kind: "oracle", Class: q.codec + ":cache-classifier-hang", Case: lines[i], Impl: fmt.Sprintf("CachePack did not return within %v on the publisher's goroutine", d.HangBudget), Spec: "every payload is classified"})
 		}
 		if got == "out=panic" {
 			c.Find(Finding{Kind: "oracle", Class: q.codec + ":cache-classifier-panic", Case: lines[i], Impl: "CachePack panicked on the publisher's goroutine (the publishing session ends)", Spec: "every payload is classified without a panic"})
@@ -244,7 +252,10 @@ var streamSeq int
 
 // sdpOne builds a stream from the SDP the way onAnnounce / PullClient.Open do, on a goroutine
 // with a deferred recover (as Session.process / playStream / Open have — c07_source_facts).
-func sdpOne(c *Ctx, sdp string, corpus bool) {
+func sdpOne(c *Ctx, sdp string, corpus bool) string {
+	if d.Stopped {
+		return "skipped"
+	}
 	streamSeq++
 	path := fmt.Sprintf("/verif/sdp/%d", streamSeq)
 	done := make(chan string, 1)
@@ -261,8 +272,13 @@ func sdpOne(c *Ctx, sdp string, corpus bool) {
 	res := ""
 	select {
 	case res = <-done:
-	case <-time.After(60 * time.Second):
-		res = "hang"
+	case <-time.After(d.HangBudget):
+		select {
+		case res = <-done:
+		default:
+			res = "hang"
+			d.Stopped = true
+		}
 	}
 	line := "c07 sdp " + Hx([]byte(sdp))
 	c.Eval(line, len(sdp) > 3)
@@ -271,16 +287,18 @@ func sdpOne(c *Ctx, sdp string, corpus bool) {
 		c.Count("sdp-newstream-ok")
 		if st.Video.Codec != "" {
 			c.Count("sdp-video-codec-" + st.Video.Codec)
+			res = "ok:" + st.Video.Codec
 		}
 		st.Close()
 	case res == "hang":
-		c.Find(Finding{Kind: "oracle", Class: "sdp-hang", Case: line, Impl: "media.NewStream did not return within 60 s", Spec: "returns"})
+		c.Find(Finding{Kind: "oracle", Class: "sdp-hang", Case: line, Impl: fmt.Sprintf("media.NewStream did not return within %v", d.HangBudget), Spec: "returns"})
 	default:
 		// contained by the deferred recover of the goroutine that parses the SDP: the session
 		// (or the pull) ends, nothing else is disturbed; reported in the distribution
 		c.Count("sdp-newstream-panic-recovered-by-session")
 		c.Note("SDP makes media.NewStream panic (recovered by the session goroutine): " + clip(fmt.Sprintf("%q: %s", sdp, res)))
 	}
+	return res
 }
 
 func genSdp(c *Ctx) {
@@ -288,7 +306,9 @@ func genSdp(c *Ctx) {
 	for _, s := range sdpCorpus {
 		sdpOne(c, s, false)
 	}
-	sdpOne(c, sdpGood, false)
+	if res := sdpOne(c, sdpGood, false); res != "ok:H264" && res != "skipped" {
+		c.Find(Finding{Kind: "oracle", Class: "sdp-good-stream-fails", Case: "c07 sdp " + Hx([]byte(sdpGood)), Impl: "media.NewStream on a well-formed SDP: " + res, Spec: "the stream is created with its H264 video description"})
+	}
 	sdpOne(c, sdpNoSprop, false)
 	n := c.Budget(150, 3000)
 	for i := 0; i < n; i++ {
@@ -311,8 +331,11 @@ func genSdp(c *Ctx) {
 		}
 		sdpOne(c, string(b), false)
 	}
-	// after all of that a well-formed stream still comes up
-	sdpOne(c, sdpGood, false)
+	// after all of that a well-formed stream still comes up: same result as before the malformed bodies
+	if res := sdpOne(c, sdpGood, false); res != "ok:H264" && res != "skipped" {
+		c.Find(Finding{Kind: "oracle", Class: "sdp-good-stream-fails-after-malformed", Case: "c07 sdp " + Hx([]byte(sdpGood)),
+			Impl: "media.NewStream on a well-formed SDP after the malformed ones: " + res, Spec: "the stream is created with its H264 video description"})
+	}
 }
 
 // ---------------------------------------------------------------- a real media.Stream
@@ -347,13 +370,38 @@ func (r *recConsumer) videoTags() int {
 
 var waitTimedOut bool
 
-func waitUntil(f func() bool) bool {
-	if waitTimedOut { // one watchdog expiry is enough to report; do not wait again for every later case
+// streamLog captures the global logger while the stream-level cases run: the converter goroutines
+// of a media.Stream report their panic there
+var streamLog *d.LogCapture
+
+// waitUntil waits for the event f; progress() is the observed quantity f depends on.  It gives up
+// only when the quantity has been WRONG AND STABLE: the budget (HangBudget, 5 min — free when the
+// event arrives) has passed and the quantity did not move during a further 5 s; while it still
+// moves (a very slow machine) the budget is renewed.
+func waitUntil(f func() bool, progress func() int) bool {
+	if waitTimedOut { // one expiry is enough to report; do not wait again for every later case
 		return f()
 	}
-	deadline := time.Now().Add(30 * time.Second)
+	deadline := time.Now().Add(d.HangBudget)
 	for i := 0; !f(); i++ {
+		if streamLog != nil && streamLog.Panicked() != "" {
+			// the event that makes the state stable: a goroutine of the stream logged its panic and is
+			// gone.  Let what is already queued drain (short, only on this path), then judge.
+			for k := 0; k < 200 && !f(); k++ {
+				time.Sleep(5 * time.Millisecond)
+			}
+			return f()
+		}
 		if time.Now().After(deadline) {
+			v := progress()
+			time.Sleep(5 * time.Second)
+			if f() {
+				return true
+			}
+			if progress() != v {
+				deadline = time.Now().Add(d.HangBudget)
+				continue
+			}
 			waitTimedOut = true
 			return false
 		}
@@ -368,19 +416,20 @@ func waitUntil(f func() bool) bool {
 
 func streamLevel(c *Ctx) {
 	config.VerifSetCacheGop(true)
-	xlog.ReplaceGlobal(xlog.New(xlog.NewNopCore()))
 	r := c.Rng
 	n := c.Budget(40, 600)
 	bads := [][]byte{
 		{0x18, 0x00, 0x01, 0x65, 0x00}, {0x78, 0x00, 0x05, 0x65}, {0x18, 0x00, 0x01}, {0x18, 0x00}, {0x7c, 0x85}, {0x7c}, {}, {0x00},
 		{0x18, 0x00, 0x02, 0x67, 0x42, 0x00}, {0x19, 0x00, 0x01, 0x00}, {0x1a, 0xff, 0xff, 0x01}, {0x1b, 0x00, 0x03, 0x01},
 	}
-	for i := 0; i < n && !waitTimedOut; i++ {
+	for i := 0; i < n && !waitTimedOut && !d.Stopped; i++ {
 		sdp := sdpGood
 		if i%3 == 2 {
 			sdp = sdpNoSprop
 		}
 		streamSeq++
+		streamLog = d.NewLogCapture()
+		xlog.ReplaceGlobal(streamLog.Logger())
 		sA := media.NewStream(fmt.Sprintf("/verif/a/%d", streamSeq), sdp)
 		sB := media.NewStream(fmt.Sprintf("/verif/b/%d", streamSeq), sdpGood)
 		rA, fA, rB := &recConsumer{}, &recConsumer{}, &recConsumer{}
@@ -408,6 +457,7 @@ func streamLevel(c *Ctx) {
 		seq := uint16(1)
 		sentA, sentB, good2 := 0, 0, 0
 		died := ""
+		hung := false
 		write := func(s *media.Stream, w d.WPkt) bool {
 			p, why := d.MakePacket(w, 0)
 			if p == nil {
@@ -415,14 +465,17 @@ func streamLevel(c *Ctx) {
 				return true
 			}
 			pan := ""
-			func() {
+			if !d.Guard(func() {
 				defer func() {
 					if r := recover(); r != nil {
 						pan = fmt.Sprint(r)
 					}
 				}()
 				s.WriteRtpPacket(p)
-			}()
+			}) {
+				hung = true
+				return false
+			}
 			if pan != "" {
 				died = pan
 				return false
@@ -460,22 +513,31 @@ func streamLevel(c *Ctx) {
 			}
 		}
 		c.Eval(line, true)
+		if hung {
+			c.Find(Finding{Kind: "oracle", Class: "stream:publisher-goroutine-hung-on-" + tag, Case: line, Impl: fmt.Sprintf("Stream.WriteRtpPacket did not return within %v", d.HangBudget), Spec: "the packet is relayed / ignored; the publishing session goes on"})
+			break
+		}
 		if died != "" {
 			c.Find(Finding{Kind: "oracle", Class: "stream:publisher-goroutine-panic-on-" + tag, Case: line, Impl: "Stream.WriteRtpPacket panicked: " + died, Spec: "the packet is relayed / ignored; the publishing session goes on"})
 		} else {
-			if !waitUntil(func() bool { return rA.Len() >= sentA }) || rA.Len() != sentA {
+			if !waitUntil(func() bool { return rA.Len() >= sentA }, rA.Len) || rA.Len() != sentA {
 				c.Find(Finding{Kind: "oracle", Class: "stream:rtp-relay-stopped-after-" + tag, Case: line, Impl: fmt.Sprintf("RTP consumer got %d of %d packets", rA.Len(), sentA), Spec: "every packet is relayed"})
 			}
 			wantTags := len(good1) - 1 + good2 // PPS (the SPS is consumed while not ready without sprop; with sprop all four) — lower bound: IDR, P + good2
 			_ = wantTags
-			if !waitUntil(func() bool { return fA.videoTags() >= 2+good2 }) {
+			if !waitUntil(func() bool { return fA.videoTags() >= 2+good2 }, fA.Len) {
 				c.Find(Finding{Kind: "oracle", Class: "stream:flv-output-stopped-after-" + tag, Case: line, Impl: fmt.Sprintf("FLV consumer got %d video NALU tags, at least %d expected", fA.videoTags(), 2+good2), Spec: "FLV output continues for the well-formed packets after the malformed one"})
 			}
 		}
-		if !waitUntil(func() bool { return rB.Len() >= sentB }) || rB.Len() != sentB {
+		if !waitUntil(func() bool { return rB.Len() >= sentB }, rB.Len) || rB.Len() != sentB {
 			c.Find(Finding{Kind: "oracle", Class: "stream:other-stream-disturbed-by-" + tag, Case: line, Impl: fmt.Sprintf("the other stream's consumer got %d of %d packets", rB.Len(), sentB), Spec: "other streams are not affected"})
+		}
+		if m := streamLog.Panicked(); m != "" {
+			c.Find(Finding{Kind: "oracle", Class: "stream:goroutine-panic-after-" + tag, Case: line, Impl: "a goroutine of the stream logged: " + clip(m), Spec: "no goroutine of the stream dies"})
 		}
 		sA.Close()
 		sB.Close()
 	}
+	streamLog = nil
+	xlog.ReplaceGlobal(xlog.New(xlog.NewNopCore()))
 }
